@@ -110,9 +110,16 @@ func Register[T any](el *EventLoop, callback EventHandler[T], opts ...HandlerOpt
 		el.handlers[t][i] = h
 	}
 
+	// The slot may be reused by a later Register call once it has been freed,
+	// so the returned function must only ever clear the handler registered here.
+	done := false
 	return func() {
 		el.mut.Lock()
 		defer el.mut.Unlock()
+		if done {
+			return
+		}
+		done = true
 		el.handlers[t][i].callback = nil
 	}
 }
